@@ -277,6 +277,28 @@ def run(ctx):
             run_partition(ctx, mode, seq, list(range(1, n)), True, dict(case, cuts='bytewise'))
             ctx.distinct('nontrivial_cases', ('crlf', idx, mode))
 
+    # content includes the descriptors a message carries: descriptor-carrying first messages whose descriptors arrive
+    # (as the transport delivers them: before the bytes of their read) in the read that also ends the handshake
+    if si == 0:
+        from checks.c20 import build_messages, run_schedule
+        for i in range(40 if quick else 400):
+            r = random.Random('%s/c04fd/%s' % (ctx.seed, i))
+            msgs = build_messages(r, r.randint(1, 3))
+            if not msgs[0]['nfd']:
+                continue
+            sched = []
+            for mi, m in enumerate(msgs):
+                for k in range(m['nfd']):
+                    sched.append(('fd', mi, k))
+                cut = r.randint(1, len(m['raw']) - 1) if r.random() < 0.5 else None
+                if cut:
+                    sched.append(('read', m['raw'][:cut], None))
+                    sched.append(('read', m['raw'][cut:], None))
+                else:
+                    sched.append(('read', m['raw'], None))
+            run_schedule(ctx, msgs, sched, 'server' if i % 2 else 'client', {'kind': 'fd-handshake', 'idx': i})
+            ctx.count('descriptor_messages_at_handshake_end')
+
     # medium sequences: one byte per read, all in one read, random partitions
     nmed = (25 if quick else 300) // sn + 1
     ctx.budget(30 if quick else 300)
